@@ -175,6 +175,7 @@ def run(ctx):
     generic_match_recorded(ctx, r8)
     compiled_expressions_typed(ctx)
     optional_range_consulted(ctx)
+    match_unresolved_parameter(ctx)
 
     # ---------------- R04.2 zips
     r2 = ctx.rule('R04.2', 'every zip of two runtime-length lists is preceded by a length test on the same lists')
@@ -706,3 +707,55 @@ def optional_range_consulted(ctx):
                 if not seen:
                     r10.fail('%s/zip/%s/optional-range-ignored' % (fn, spec), mirq.site(b, bb), 'the parameters of the function type `%s` are paired after an arity test that does not consult its arg_len_range(): optional parameters count as required (or the reverse), e.g. a field of type (int, int?)->int accepts (int, int)->int, which is then called with one argument' % spec)
     r10.need(2)
+
+
+def match_unresolved_parameter(ctx):
+    """R04.11: a spec's bind matches the arguments one by one and combines what they say about a generic parameter with Bind::mix
+    (which takes the common type: an empty container next to a full one gives the full one's type).  That only works if each
+    parameter type is matched *as declared*: resolving it first with the binding accumulated so far turns `T` into what the earlier
+    arguments said (`Sequence<?>` for `[]`), and the later argument is then merely checked against that -- anything fits an unknown.
+    In every `*Spec::bind`, the receiver of bind_in_assignment does not come from a resolve_bind fed with the accumulator of mix."""
+    from .lib import mirq, guards
+    from .lib.facts import strip_generics, callee_name, op_place
+    mir = ctx.mir
+    r11 = ctx.rule('R04.11', 'spec binding matches parameter types as declared, not resolved with the accumulating binding')
+    for b in mir.bodies:
+        if b.file != XT or not re.search(r'xtype::X\w+Spec::bind$', b.nid):
+            continue
+        # the accumulator: the local(s) that receive the result of mix (through `?`) and are handed to the next mix
+        acc = set()
+        for bb, t in b.calls():
+            if strip_generics(callee_name(t) or '').endswith('Bind::mix') and t['args']:
+                p = op_place(t['args'][0])
+                if p is not None:
+                    acc.add(guards.root_local(b, p['l']))
+
+        def roots(l):
+            out, seen, todo = set(), set(), [l]
+            while todo:
+                x = todo.pop()
+                if x in seen:
+                    continue
+                seen.add(x)
+                r = guards.root_local(b, x)
+                out.add(r)
+                for kind, dbb, idx, d in b.defs().get(r, []):
+                    if kind == 'stmt' and d['rv']['k'] == 'ref':
+                        todo.append(d['rv']['place']['l'])
+            return out
+        for bb, t in b.calls():
+            if not strip_generics(callee_name(t) or '').endswith('XType::bind_in_assignment') or not t['args']:
+                continue
+            p = op_place(t['args'][0])
+            sl = mirq.backslice(b, [p['l']]) if p is not None else set()
+            bad = None
+            for cbb, ct in b.calls():
+                if strip_generics(callee_name(ct) or '').endswith('XType::resolve_bind') and not ct['dest']['p'] and ct['dest']['l'] in sl and len(ct['args']) > 1:
+                    q = op_place(ct['args'][1])
+                    if q is not None and roots(q['l']) & acc:
+                        bad = cbb
+            fn = b.nid.split('::')[-2] + '::bind'
+            r11.inst({'fn': fn, 'match_at': mirq.site(b, bb), 'parameter_type_resolved_with_the_accumulator': bad is not None}, ok=bad is None, kind=(b.nid, bb))
+            if bad is not None:
+                r11.fail('%s/parameter-resolved-with-accumulator' % fn, mirq.site(b, bad), 'the parameter type is resolved with the binding accumulated from the earlier arguments before it is matched: a generic already bound to the type of an empty container accepts any later argument (struct P<T>(a: T, b: T) let p = P([], [1]); let x: Sequence<str> = p::b; is accepted and x[0] + "a" crashes the interpreter)')
+    r11.need(2)
